@@ -342,6 +342,12 @@ def arms_builtin(repo, res, rule="ARMS"):
 
 
 def run(repo, res, tier):
+    from vlib import rules_skips as SK, tables
+    from . import c04
+    # which definitions take part at all is decided by the skips of these two functions; and the chosen command text is what runs
+    # only if the functions are numbered from the one shared command set
+    SK.skips_rule(repo, res, tables.load("skips")["row"], only={"check::ValidGrammar::from_grammar", "parse::Grammar::get_specializations"})
+    c04.shared_cmd_ids(repo, res)
     lookup_rule(repo, res)
     dom_get_specializations(repo, res)
     ff_specialized_command(repo, res)
